@@ -133,3 +133,58 @@ Proof.
 Qed.
 Lemma cnt_aset l k v k' : cnt (aset l k v) k' = if k =? k' then v else cnt l k'.
 Proof. unfold cnt. rewrite aget_aset. destruct (k =? k'); reflexivity. Qed.
+
+(* ---------------- pools ---------------- *)
+Lemma find_pool_ins a i p l :
+  find_pool a i (ins_pool p l) = if (pl_app p =? a) && (pl_id p =? i) then Some p else find_pool a i l.
+Proof.
+  induction l as [|x r IH]; cbn [ins_pool find_pool]; [reflexivity|].
+  destruct ((pl_app x =? pl_app p) && (pl_id x =? pl_id p)) eqn:E1.
+  - cbn [find_pool]. destruct ((pl_app p =? a) && (pl_id p =? i)) eqn:E2; [reflexivity|].
+    destruct ((pl_app x =? a) && (pl_id x =? i)) eqn:E3; [lia|reflexivity].
+  - destruct ((pl_app p <? pl_app x) || ((pl_app p =? pl_app x) && (pl_id p <? pl_id x))); cbn [find_pool].
+    + reflexivity.
+    + rewrite IH. destruct ((pl_app x =? a) && (pl_id x =? i)) eqn:E3; [|reflexivity].
+      destruct ((pl_app p =? a) && (pl_id p =? i)) eqn:E2; [lia|reflexivity].
+Qed.
+Lemma find_pool_map a i (f : pool -> pool) l : (forall p, pl_app (f p) = pl_app p /\ pl_id (f p) = pl_id p) ->
+  find_pool a i (map f l) = option_map f (find_pool a i l).
+Proof.
+  intros Hf. induction l as [|x r IH]; cbn [map find_pool]; [reflexivity|]. destruct (Hf x) as [-> ->].
+  destruct ((pl_app x =? a) && (pl_id x =? i)); [reflexivity|exact IH].
+Qed.
+
+(* ---------------- request lists: replace the entry under a key ---------------- *)
+Section Replace.
+Context {A : Type} (key : A -> key3) (f : A -> Z).
+Lemma zsum_replace (r r' : A) l : NoDup (map key l) -> In r l -> key r' = key r ->
+  zsum (map f (map (fun x => if k3_eqb (key x) (key r) then r' else x) l)) = zsum (map f l) - f r + f r'.
+Proof.
+  intros Hnd Hin Hk. induction l as [|x t IH]; [destruct Hin|]. cbn [map zsum]. inversion Hnd as [|? ? Hx Ht]; subst.
+  destruct Hin as [->|Hin].
+  - rewrite k3_eqb_refl.
+    assert (G : map (fun x => if k3_eqb (key x) (key r) then r' else x) t = t).
+    { clear IH Ht Hnd. induction t as [|y t IHt]; cbn [map]; [reflexivity|].
+      destruct (k3_eqb (key y) (key r)) eqn:E; [apply k3_eqb_eq in E; exfalso; apply Hx; left; exact E|].
+      f_equal. apply IHt. intros Hi. apply Hx. right. exact Hi. }
+    rewrite G. lia.
+  - destruct (k3_eqb (key x) (key r)) eqn:E.
+    + apply k3_eqb_eq in E. exfalso. apply Hx. rewrite E. apply in_map. exact Hin.
+    + rewrite (IH Ht Hin). lia.
+Qed.
+Lemma map_key_replace (r r' : A) l : key r' = key r ->
+  map key (map (fun x => if k3_eqb (key x) (key r) then r' else x) l) = map key l.
+Proof.
+  intros Hk. induction l as [|x t IH]; cbn [map]; [reflexivity|]. f_equal; [|exact IH].
+  destruct (k3_eqb (key x) (key r)) eqn:E; [apply k3_eqb_eq in E; congruence|reflexivity].
+Qed.
+Lemma in_replace (r r' : A) l x : In x (map (fun x => if k3_eqb (key x) (key r) then r' else x) l) -> x = r' \/ In x l.
+Proof.
+  intros H. apply in_map_iff in H. destruct H as (y & <- & Hy). destruct (k3_eqb (key y) (key r)); [left; reflexivity|right; exact Hy].
+Qed.
+Lemma nodup_snoc (x : A) l : ~ In (key x) (map key l) -> NoDup (map key l) -> NoDup (map key (l ++ [x])).
+Proof.
+  intros Hn Hnd. rewrite map_app. cbn [map].
+  apply (Permutation.Permutation_NoDup (Permutation.Permutation_cons_append _ _)). constructor; assumption.
+Qed.
+End Replace.
